@@ -178,6 +178,10 @@ def language_obligations(ck, facts):
     return held
 
 
+VALIDATOR_CALLS = panics.norm_table(VALIDATOR_CALLS)
+REFUTED_BACKEND_GUARANTEES = panics.norm_table(REFUTED_BACKEND_GUARANTEES)
+
+
 def reparse_of_validated_iri(site):
     """`oxiri::Iri::parse(x).unwrap()` where x is the inner string of a sophia `Iri<_>` wrapper (`Iri::unwrap()`)"""
     fn = site.fn
